@@ -3,7 +3,7 @@ K = 'github.com/ProjectSerenity/firefly/kernel'
 
 PROP = {
     'pkg': K + '/device/tty',
-    'tests': [{'name': 'TestVerifC17', 'checks_quick': 30000, 'checks_thorough': 1600000, 'shrinktime': '10s'}],
+    'tests': [{'name': 'TestVerifC17', 'checks_quick': 80000, 'checks_thorough': 1600000, 'shrinktime': '10s'}],
     'rule': 'rapid generates a console geometry (w,h in 1..12 with 1 over-represented; thorough tier: ~10% of the cases '
             '13..200 x 1..60), scrollback 0..6, tab width 0..9 and a history of <=400 ops: WriteByte / Write(chunk) with '
             'bytes weighted to printable, \\n, \\b, \\t, \\r, space, 0x00, 0xff, any byte (chunks also as long printable '
